@@ -2,6 +2,9 @@ import CedarVerif.Util.Sexp
 import CedarVerif.Cedar.SchemaSyntax
 import CedarVerif.Cedar.SchemaDecl
 import CedarVerif.Cedar.SchemaDecl2
+import CedarVerif.Cedar.SchemaCollect
+import CedarVerif.Cedar.SchemaFmtCheck
+import CedarVerif.Cedar.SchemaAnnot
 import CedarVerif.Driver.Codec
 /-
 Driver ops of C09 (schema syntaxes):
@@ -12,6 +15,14 @@ Driver ops of C09 (schema syntaxes):
                                                          → (common "q") | (entity "q") | (builtin "Long") | (undefined) | (shadow)
   (sty print-frag <frag>)                                → (toks <tok>…)            whole-fragment printer of fmt.rs
   (sty parse-frag (toks <tok>…))                         → (ok <frag, entries and namespaces sorted>) | (err)   grammar + to_json_schema.rs
+  (sty collect-frag (toks <tok>…))                       → (ok <frag in KEY order, nothing sorted by the codec>) | (err dup-decl) | (err dup-ns) | (err syntax)
+                                                            `parseFragmentCollected` (the BTreeMap collection of to_json_schema.rs)
+  (sty to-cedar-checked <frag> (nonrec "A::B"…))         → (toks <tok>…) | (err collision) | (err nonrecord)     `toCedarChecked`
+  (sty print-frag-a <afrag>)                             → (toks <tok>…)            `printFragmentA` (annotations as `at (id k) [lp (str v) rp]`)
+  (sty parse-frag-a (toks <tok>…))                       → (ok <afrag in KEY order>) | (err dup-decl) | (err dup-ns) | (err syntax)
+                                                            `parseItemsA` + conversion + `collectFragment` on the stripped fragment
+afrag  ::= (afrag <ans>…)      ans ::= (ns "A::B"|"" <anns> (commons ("N" <anns> tyjson)…) (entities ("N" <anns> ent)…) (actions ("N" <anns> act)…))
+anns   ::= (anns ("k" "v")|("k" none)…)
 frag   ::= (frag <ns>…)        ns ::= (ns "A::B"|"" (commons ("N" tyjson)…) (entities ("N" ent)…) (actions ("N" act)…))
 ent    ::= (std (in "q"…) <record tyjson> (tags tyjson)|(notags)) | (enum "a"…)
 act    ::= (act (in (ref "T"|none "id")…)|(noin) (applies (p "q"…) (r "q"…) tyjson)|(noapplies))
@@ -192,6 +203,24 @@ def encFrag (f : FragmentJ) : String :=
   let nss := (match f.empty with | some d => [encNsJ "" d] | none => []) ++ f.named.map fun x => encNsJ (encQName x.1) x.2
   "(frag" ++ String.join ((CedarVerif.sortStrings nss).map (" " ++ ·)) ++ ")"
 
+/-- entries in the given order (no sorting by the codec) -/
+def encEntriesO {α : Type} (f : α → String) (l : List (String × α)) : String :=
+  String.join (l.map fun x => " (" ++ qstrS x.1 ++ " " ++ f x.2 ++ ")")
+
+def encNsJO (name : String) (d : NamespaceJ) : String :=
+  "(ns " ++ qstrS name ++ " (commons" ++ encEntriesO encTyJson d.commons ++ ") (entities" ++ encEntriesO encEnt d.entities ++
+    ") (actions" ++ encEntriesO encAct d.actions ++ "))"
+
+/-- the empty namespace first (`None` is the least key), then the named ones in the given order -/
+def encFragO (f : FragmentJ) : String :=
+  let nss := (match f.empty with | some d => [encNsJO "" d] | none => []) ++ f.named.map fun x => encNsJO (encQName x.1) x.2
+  "(frag" ++ String.join (nss.map (" " ++ ·)) ++ ")"
+
+def encDeclErr : DeclErr → String
+  | .syntax => "(err syntax)"
+  | .duplicateDecl => "(err dup-decl)"
+  | .duplicateNamespace => "(err dup-ns)"
+
 /-- the harness lexer names `;` `=` `[` `]` semi / eq / lk / rk -/
 def fixTok : Tok → Tok
   | .other "semi" => .other ";" | .other "eq" => .other "=" | .other "lk" => .other "[" | .other "rk" => .other "]"
@@ -212,6 +241,12 @@ def handleSchemaFrag (x : Sexp) : Option String :=
     | some ts => some (match parseFragment (ts.map fixTok) with
       | some f => s!"(ok {encFrag f})"
       | none => "(err)")
+    | none => some "(bad-op)"
+  | .list [.atom "sty", .atom "collect-frag", .list (.atom "toks" :: ts)] =>
+    match ts.mapM decTok with
+    | some ts => some (match parseFragmentCollected (ts.map fixTok) with
+      | .ok f => s!"(ok {encFragO f})"
+      | .error e => encDeclErr e)
     | none => some "(bad-op)"
   | _ => none
 end C09Frag
